@@ -113,6 +113,18 @@ example : (match parse true "M1 2 3 4l5,6-7.5.5z".toList with | .ok l => l | .er
     [('M', [.num "1", .num "2"]), ('L', [.num "3", .num "4"]), ('l', [.num "5", .num "6"]),
      ('l', [.num "-7.5", .num ".5"]), ('z', [])] := by decide +kernel
 
+/-- C10-l (arity, non-exploded): every command `parse_svg_path(s, exploded=False)` yields — for every string it accepts — has a
+    letter of `_CMD_ARGS` and an argument count that is a multiple of that letter's arity (zero for `z`/`Z`): nothing
+    `check_cmd` would refuse is ever handed on, so a caller may chunk the arguments by the arity without remainder. -/
+theorem unexploded_commands_pass_check_cmd (cs : List Char) (out : List (Char × List Arg))
+    (h : parse false cs = .ok out) : ∀ e ∈ out, PathLex.arityOK e :=
+  PathLex.parse_unexploded_arity cs out h
+
+/-- non-vacuity: the same text as above, unexploded -/
+example : (match parse false "M1 2 3 4l5,6-7.5.5z".toList with | .ok l => l | .error _ => []) =
+    [('M', [.num "1", .num "2", .num "3", .num "4"]), ('l', [.num "5", .num "6", .num "-7.5", .num ".5"]), ('z', [])] := by
+  decide +kernel
+
 /-! tie to the source: the regular expressions and tables the scanners stand for -/
 theorem gen_cmd_re : Gen.cmdRe = ("([mzlhvcsqtaMZLHVCSQTA])", 32) := by decide
 theorem gen_separator_re : Gen.separatorRe = ("[, ]+", 32) := by decide
